@@ -36,6 +36,7 @@ type c13Parent struct {
 }
 
 type c13Case struct {
+	mask    int // VN<mask>: 1 Basiccheck nil, 2 Parentscheck nil, 4 Reader returns nil validators
 	cur     uint32
 	vals    []uint32
 	epoch   uint32
@@ -57,7 +58,11 @@ func c13ParentID(p c13Parent) *big.Int {
 }
 
 func (c *c13Case) tokens() []string {
-	t := []string{"V", vu.U64(uint64(c.cur)), vu.Itoa(len(c.vals))}
+	op := "V"
+	if c.mask != 0 {
+		op = "VN" + vu.Itoa(c.mask)
+	}
+	t := []string{op, vu.U64(uint64(c.cur)), vu.Itoa(len(c.vals))}
 	for _, v := range c.vals {
 		t = append(t, vu.U64(uint64(v)))
 	}
@@ -92,6 +97,9 @@ func c13Parse(in []string) (*c13Case, error) {
 		return uint32(v)
 	}
 	c := &c13Case{}
+	if strings.HasPrefix(in[0], "VN") {
+		c.mask, _ = strconv.Atoi(in[0][2:])
+	}
 	c.cur = u32()
 	nv := int(u32())
 	for i := 0; i < nv; i++ {
@@ -160,6 +168,8 @@ func c13Call(f func() error) (code string) {
 		if r := recover(); r != nil {
 			if strings.Contains(fmt.Sprint(r), "expected event's parents as an argument") {
 				code = "10"
+			} else if strings.Contains(fmt.Sprint(r), "nil pointer dereference") {
+				code = "12"
 			} else {
 				code = "11"
 			}
@@ -230,21 +240,82 @@ func c13Run(in []string) []string {
 		b.Set(idx.ValidatorID(v), 1)
 	}
 	reader := &c13Reader{v: b.Build(), e: idx.Epoch(c.cur)}
+	if c.mask&4 != 0 {
+		reader.v = nil
+	}
 	checkers := &eventcheck.Checkers{
 		Basiccheck:   basiccheck.New(),
 		Epochcheck:   epochcheck.New(reader),
 		Parentscheck: parentscheck.New(),
 	}
+	if c.mask&1 != 0 {
+		checkers.Basiccheck = nil // an empty struct whose methods never touch the receiver
+	}
+	if c.mask&2 != 0 {
+		checkers.Parentscheck = nil
+	}
 	all := c13Call(func() error { return checkers.Validate(e, parents) })
 	ba := c13Call(func() error { return checkers.Basiccheck.Validate(e) })
 	ep := c13Call(func() error { return checkers.Epochcheck.Validate(e) })
 	pa := c13Call(func() error { return checkers.Parentscheck.Validate(e, parents) })
+	// second use: the same Checkers object (and Reader) must answer the same again
+	if again := c13Call(func() error { return checkers.Validate(e, parents) }); again != all {
+		all = "11"
+	}
+	c13SweepStats(c)
 	vu.Stat("all=" + all)
 	vu.Stat("parents=" + pa)
 	return []string{all, ba, ep, pa}
 }
 
-var c13Bounds = []uint32{0, 1, 2, 1<<31 - 3, 1<<31 - 2, 1<<31 - 1, 1<<32 - 1}
+var c13Bounds = []uint32{0, 1, 2, 255, 256, 65535, 65536, 1<<31 - 3, 1<<31 - 2, 1<<31 - 1, 1 << 31, 1<<32 - 1}
+
+func c13Bucket(n int) string {
+	switch {
+	case n <= 10:
+		return vu.Itoa(n)
+	case n <= 32:
+		return "11-32"
+	case n <= 64:
+		return "33-64"
+	case n <= 256:
+		return "65-256"
+	}
+	return ">256"
+}
+
+// c13SweepStats records which configuration / size classes a case reaches (evidence: input_distribution).
+func c13SweepStats(c *c13Case) {
+	vu.Stat("np=" + c13Bucket(len(c.ps)))
+	vu.Stat("nv=" + c13Bucket(len(c.vals)))
+	if c.mask != 0 {
+		vu.Stat("nilmask=" + vu.Itoa(c.mask))
+	}
+	switch c.cur {
+	case 0:
+		vu.Stat("cur=0")
+	case 1<<32 - 1:
+		vu.Stat("cur=maxuint32")
+	}
+	switch c.creator {
+	case 0:
+		vu.Stat("creator=0")
+	case 1<<32 - 1:
+		vu.Stat("creator=maxuint32")
+	}
+	for _, f := range []uint32{c.seq, c.epoch, c.frame, c.lamport} {
+		switch f {
+		case 255, 256:
+			vu.Stat("field@2^8")
+		case 65535, 65536:
+			vu.Stat("field@2^16")
+		case 1<<31 - 3, 1<<31 - 2, 1<<31 - 1, 1 << 31:
+			vu.Stat("field@2^31")
+		case 1<<32 - 1:
+			vu.Stat("field@2^32-1")
+		}
+	}
+}
 
 func c13Pick(r *rand.Rand) uint32 {
 	switch r.Intn(4) {
@@ -459,7 +530,86 @@ func init() {
 					}
 				}
 			}
-			// boundary grid: all 7^4 field combinations (thorough) on several parent shapes
+			// configuration / size sweep (always): parents lists of length 0..10, 40, 300; validator sets of
+			// 0, 1, 33, 65, 257, 1000; reader epoch 0 / MaxUint32; creator 0 / MaxUint32; every field at each
+			// width boundary; nil sub-checkers; a Reader returning nil validators
+			for _, others := range []int{0, 1, 2, 3, 4, 5, 6, 7, 8, 9, 10, 39, 299} {
+				for _, seq := range []uint32{1, 2} {
+					c := c13Valid(r, seq, others)
+					emit(c.tokens()...)
+					c = c13Valid(r, seq, others)
+					c13Mutate(r, c, []int{1, 11, 13, 23, 9}[r.Intn(5)])
+					emit(c.tokens()...)
+				}
+			}
+			for _, nv := range []int{0, 1, 33, 65, 257, 1000} {
+				for _, in := range []bool{true, false} {
+					c := c13Valid(r, 2, 1)
+					c.vals = nil
+					for v := 0; v < nv; v++ {
+						c.vals = append(c.vals, uint32(v*7+100))
+					}
+					if in && nv > 0 {
+						c.vals[r.Intn(nv)] = c.creator
+					}
+					emit(c.tokens()...)
+				}
+			}
+			for _, cur := range []uint32{0, 1, 255, 256, 65535, 65536, 1<<31 - 3, 1<<31 - 2, 1 << 31, 1<<32 - 1} {
+				c := c13Valid(r, 2, 1)
+				c.cur, c.epoch = cur, cur
+				emit(c.tokens()...)
+				c = c13Valid(r, 1, 0)
+				c.cur = cur
+				emit(c.tokens()...)
+			}
+			for _, cr := range []uint32{0, 1<<32 - 1} {
+				for _, seq := range []uint32{1, 3} {
+					c := c13Valid(r, seq, 2)
+					c.creator = cr
+					c.vals = append(c.vals, cr)
+					for j := range c.ps {
+						if j == 0 && seq > 1 {
+							c.ps[j].creator = cr
+						} else if c.ps[j].creator == cr {
+							c.ps[j].creator = 7
+						}
+					}
+					emit(c.tokens()...)
+				}
+			}
+			for _, b := range c13Bounds {
+				for f := 0; f < 4; f++ {
+					c := c13Valid(r, 2, 1)
+					switch f {
+					case 0: // seq with a matching self-parent
+						c.seq = b
+						c.ps[0].seq = b - 1
+					case 1:
+						c.epoch, c.cur = b, b
+					case 2:
+						c.frame = b
+					default: // lamport with matching parents
+						c.lamport = b
+						for j := range c.ps {
+							c.ps[j].lamport = b - 1 - uint32(j)
+							c.ids[j] = c13ParentID(c.ps[j])
+						}
+					}
+					emit(c.tokens()...)
+				}
+			}
+			for mask := 1; mask < 8; mask++ {
+				for _, m := range []int{-1, 0, 4, 7, 9, 19} {
+					c := c13Valid(r, 2, 1)
+					if m >= 0 {
+						c13Mutate(r, c, m)
+					}
+					c.mask = mask
+					emit(c.tokens()...)
+				}
+			}
+			// boundary grid: all field combinations (thorough) on several parent shapes
 			if tier == "thorough" {
 				for _, sq := range c13Bounds {
 					for _, ep := range c13Bounds {
